@@ -1,11 +1,31 @@
 use crate::common::*;
 pub mod rel;
 pub mod offset;
+pub mod utf8;
 
 pub fn run(family: &str, opts: &Opts) -> Option<Report> {
+    // "family@m<interval>s<0|1>" runs the family under a store configuration variant
+    let (family, variant) = match family.split_once('@') {
+        Some((f, v)) => (f, Some(v)),
+        None => (family, None),
+    };
+    if let Some(v) = variant {
+        let v = v.trim_start_matches('m');
+        let (m, s) = v.split_once('s')?;
+        set_cfg(Some(CfgVariant { milestone: m.parse().ok()?, shrink: s == "1" }));
+    }
+    let mut r = run_base(family, opts)?;
+    if let Some(v) = variant {
+        r.family = format!("{}@{}", family, v);
+    }
+    Some(r)
+}
+
+fn run_base(family: &str, opts: &Opts) -> Option<Report> {
     match family {
         "rel" => Some(rel::run(opts)),
         "offset" => Some(offset::run(opts)),
+        "utf8" => Some(utf8::run(opts)),
         _ => None,
     }
 }
@@ -15,6 +35,7 @@ pub fn exec_line(line: &str) -> Option<String> {
     match line.split_whitespace().next() {
         Some("rel") => Some(rel::exec_line(line)),
         Some("off") => Some(offset::exec_line(line)),
+        Some("u8") => Some(utf8::exec_line(line)),
         _ => None,
     }
 }
